@@ -60,6 +60,10 @@ CLAIMED = {
             'exploration: held on ~1.8x10^4 paired queries per quick run (all feature and model types, curved trenches, sections, depth surfaces, ridges; any rotation/translation up to 1e7 m; longitude offsets moving footprints across the date line, incl. +-360)',
             'tolerances sit one order above the measured noise floor of the trench closest-point solver (relative 1e-8): 1e-6 K + 1e-7 relative, 1e-7 for compositions/grains; plume azimuth ties (exactly 180 degrees apart) are avoided; velocity is not compared',
             'DESIGN.md section 4, C08'),
+    'C10': ('runtime monitoring: metamorphic monitor - families of files that place the same models at feature / section / segment level (bit-identical answers), and pairs of worlds differing in the section of one coordinate (bit-identical answers outside the neighbouring sections, convexity and attainment of section values), section of the trench foot taken from the library\'s own closest-point kernel (ASan+UBSan build)',
+            'exploration: held on ~10^4 points per quick run over 60 five-file families and 80 override pairs (2-6 coordinates, straight and gently curved trenches, slabs and faults, both coordinate systems)',
+            'interpolated quantities are observed through temperature, composition, thickness, length and top truncation; angles only indirectly; the 20 % margin around section boundaries is not judged',
+            'DESIGN.md section 4, C10'),
 }
 
 PENDING_REASON = 'check not built yet (work in progress; see DESIGN.md section 9)'
